@@ -11,6 +11,7 @@ import (
 	"bufio"
 	"bytes"
 	"fmt"
+	"reflect"
 	"strings"
 
 	hessian "github.com/vogo/gohessian"
@@ -86,6 +87,11 @@ func (r *c12Res) equal(o *c12Res) bool {
 type c12Shared struct {
 	inputs  []interface{}
 	foreign [][]byte // byte streams of a peer (evolved classes with unknown fields, non-canonical encodings)
+	// the maps shared by every task of the run: fresh copies per run, so that a write into the caller's
+	// map that happens only on first use happens in every run, not only in a cold process
+	tm  map[string]reflect.Type
+	nm  map[string]string
+	tm0 map[string]reflect.Type // the odd entries as registered before the run
 }
 
 // c12Inst is the instance a task owns: a Serializer, or an Encoder + Decoder pair.
@@ -95,11 +101,11 @@ type c12Inst struct {
 	dec *hessian.Decoder
 }
 
-func c12NewInst(pair bool) *c12Inst {
+func c12NewInst(pair bool, sh *c12Shared) *c12Inst {
 	if pair {
-		return &c12Inst{enc: hessian.NewEncoder(nil, ZooNameMap), dec: hessian.NewDecoder(nil, ZooTypeMap)}
+		return &c12Inst{enc: hessian.NewEncoder(nil, sh.nm), dec: hessian.NewDecoder(nil, sh.tm)}
 	}
-	return &c12Inst{ser: hessian.NewSerializer(ZooTypeMap, ZooNameMap)}
+	return &c12Inst{ser: hessian.NewSerializer(sh.tm, sh.nm)}
 }
 
 func c12Exec(in *c12Inst, sh *c12Shared, op c12Op) (res *c12Res) {
@@ -217,6 +223,22 @@ func runC12(ch *Choices, cfg *RunCfg) (o *Outcome) {
 	g := NewGen(ch, dom)
 	nin := ch.Range(1, 4, "ninputs")
 	sh := &c12Shared{}
+	sh.tm, sh.nm = copyMaps()
+	oddMap := ch.Intn(5, "tm.odd") == 1
+	if oddMap {
+		// a legal but unusual registration: some classes registered through a pointer type (RegisterVal(k, &T{}))
+		salt := ch.Salt("tm.oddsalt")
+		for _, k := range sortedTypeKeys() {
+			if t := sh.tm[k]; t.Kind() == reflect.Struct && mix64(hashString(k)^salt)%3 == 0 {
+				sh.tm[k] = reflect.PtrTo(t)
+				if sh.tm0 == nil {
+					sh.tm0 = map[string]reflect.Type{}
+				}
+				sh.tm0[k] = sh.tm[k]
+			}
+		}
+		o.Probes["shared type map with classes registered through pointer types"]++
+	}
 	for i := 0; i < nin; i++ {
 		if ch.Intn(6, "input.manyclasses") == 1 {
 			// one message that mentions many distinct classes (class tables beyond their initial capacity)
@@ -264,7 +286,7 @@ func runC12(ch *Choices, cfg *RunCfg) (o *Outcome) {
 	for i, v := range sh.inputs {
 		inputsBefore[i], _ = Canon(v, CanonOpts{})
 	}
-	mapsBefore := mapsDigest(ZooTypeMap, ZooNameMap)
+	mapsBefore := mapsDigest(sh.tm, sh.nm)
 
 	// ---- concurrent phase ----
 	runAll := func(policy, meanQ int, stalls bool) (*Sched, [][]*c12Res) {
@@ -273,13 +295,13 @@ func runC12(ch *Choices, cfg *RunCfg) (o *Outcome) {
 			if pair {
 				pool = nil // pairs are pooled separately below
 			} else {
-				pool = hessian.NewSerializerPool(poolSize, ZooTypeMap, ZooNameMap)
+				pool = hessian.NewSerializerPool(poolSize, sh.tm, sh.nm)
 			}
 		}
 		var encPool, decPool hessian.Pool
 		if pooled && pair {
-			encPool = hessian.NewEncoderPool(poolSize, ZooNameMap)
-			decPool = hessian.NewDecoderPool(poolSize, ZooTypeMap)
+			encPool = hessian.NewEncoderPool(poolSize, sh.nm)
+			decPool = hessian.NewDecoderPool(poolSize, sh.tm)
 		}
 		s := NewSched(ch, policy, meanQ)
 		s.MaxSteps = 300_000_000 // hard cap only; the progress oracle compares with the solo cost afterwards
@@ -312,7 +334,7 @@ func runC12(ch *Choices, cfg *RunCfg) (o *Outcome) {
 						decPool.Return(d)
 					default:
 						if in == nil {
-							in = c12NewInst(pair)
+							in = c12NewInst(pair, sh)
 						}
 						slot[i] = c12Exec(in, sh, op)
 					}
@@ -375,11 +397,19 @@ func runC12(ch *Choices, cfg *RunCfg) (o *Outcome) {
 	}
 
 	// ---- solo phase (afterwards): the expected result of every op, on fresh instances, run alone ----
+	// (over pristine copies of the maps as they were before the concurrent phase)
 	resetClock(0)
+	soloShared := &c12Shared{inputs: sh.inputs, foreign: sh.foreign}
+	soloShared.tm, soloShared.nm = copyMaps()
+	if oddMap {
+		for k, t := range sh.tm0 {
+			soloShared.tm[k] = t
+		}
+	}
 	expected := make([][]*c12Res, ntasks)
 	for t := range scripts {
 		for _, op := range scripts[t] {
-			expected[t] = append(expected[t], c12Exec(c12NewInst(pair), sh, op))
+			expected[t] = append(expected[t], c12Exec(c12NewInst(pair, soloShared), sh, op))
 		}
 	}
 
@@ -421,7 +451,7 @@ func runC12(ch *Choices, cfg *RunCfg) (o *Outcome) {
 			o.fail("c12/shared-mutated", "input", "shared input #%d changed during the concurrent phase: %s", i, firstDiff(inputsBefore[i], c))
 		}
 	}
-	if d := mapsDigest(ZooTypeMap, ZooNameMap); d != mapsBefore {
+	if d := mapsDigest(sh.tm, sh.nm); d != mapsBefore {
 		o.fail("c12/shared-mutated", "maps", "the shared type/name map changed during the concurrent phase: %s", firstDiff(mapsBefore, d))
 	}
 	return o
